@@ -16,7 +16,7 @@ RUN_LIMIT_CPU_S = 600     # one run enumerates hundreds of fault positions in th
 BUDGET = {'quick': 25, 'thorough': 300}
 BLOCK = 10
 STREAM_ORDER = ['ops', 'guards', 'faults', 'mat', 'chart', 'cfg']
-RULE = (common.GEN + 'every state (all kinds, history and final included) and transition carries 0-3 conditions of each kind, each a probe '
+RULE = (common.GEN + 'every state (all kinds, history and final included) and transition carries 0-3 conditions of each kind (now and then the very same text twice in one list: evaluated once per occurrence), each a probe '
         'P.cond(j, v, __old__, event) - a third of them also logs sent(na), sent(ea) and received(ea), which are compared with the events the returned micro steps sent so far (in half of the runs code sends and notifies) -; code modifies the context variable v; a third of the guarded transitions have no action at all (their conditions are due all the same). Twin runs: run A (all conditions true) is checked against the '
         'interleaving of code and contract probes implied by the returned micro steps and against the model value of v / __old__.v; then '
         'for EVERY contract-evaluation occurrence k of run A (thorough) or 12 drawn occurrences (quick) run B_k replays the same script '
@@ -123,7 +123,7 @@ def expected(sp, r, vm, flags=None):
 
 def run(ch, tier):
     res = Result()
-    cfg = swarm(ch.s('cfg'), Cfg(contracts=True, bump=True, sentconds=True, noact=True, sends=ch.s('cfg').flag(1, 2), notify=ch.s('cfg').flag(1, 2)), tier)
+    cfg = swarm(ch.s('cfg'), Cfg(contracts=True, bump=True, sentconds=True, noact=True, dupconds=True, sends=ch.s('cfg').flag(1, 2), notify=ch.s('cfg').flag(1, 2)), tier)
     sp = gen_spec(ch.s('chart'), cfg)
     own = owners(sp)
     cfp = fp(sp.fingerprint())
